@@ -200,9 +200,10 @@ def value_for(r, ref, req, long_strings=0.0):
 
 
 INVALID_KINDS_R = ("unknown_tag", "unknown_member", "index_oob", "count_oob", "count_absurd", "index_malformed",
-                   "not_a_tag")
+                   "not_a_tag", "bit_oob", "index_huge")
 INVALID_KINDS_W = ("unknown_tag", "unknown_member", "index_oob", "count_oob", "unencodable", "too_short",
-                   "misaligned_bool", "count_absurd", "index_malformed", "not_a_tag", "missing_member")
+                   "misaligned_bool", "count_absurd", "index_malformed", "not_a_tag", "missing_member", "bit_oob",
+                   "index_huge")
 
 
 def gen_invalid(r, ref, for_write):
@@ -266,6 +267,24 @@ def gen_invalid(r, ref, for_write):
             bad = r.choice(("x", "-1", "1.5", "", "0x10"))
             idx = ["0"] * len(dims)
             idx[r.randrange(len(dims))] = bad
+            v = gen_value(r, ref, t["type"]) if for_write and t["type"] in ATOMIC_BY_NAME else (1 if for_write else None)
+            return pre + t["name"] + "[" + ",".join(idx) + "]", v, kind
+        if kind == "bit_oob":
+            # a bit number the integer does not have: .8 of a SINT, .32 / .99 of a DINT, .64 of a LINT
+            if t["type"] not in INTS:
+                continue
+            width = 8 * ATOMIC_BY_NAME[t["type"]][1]
+            b = r.choice((width, width, width + 1, 99, 64, 255, 1000))
+            if b < width:
+                continue
+            idx = "[" + ",".join(str(x) for x in _rand_idx(r, dims)) + "]" if dims else ""
+            return pre + t["name"] + idx + f".{b}", (r.random() < 0.5 if for_write else None), kind
+        if kind == "index_huge":
+            # an index no segment format can carry
+            if not dims or t["type"] == "DWORD":
+                continue
+            idx = [str(x) for x in _rand_idx(r, dims)]
+            idx[r.randrange(len(dims))] = str(r.choice((2**32, 2**32 + 5, 99999999999, 2**64)))
             v = gen_value(r, ref, t["type"]) if for_write and t["type"] in ATOMIC_BY_NAME else (1 if for_write else None)
             return pre + t["name"] + "[" + ",".join(idx) + "]", v, kind
         if kind == "missing_member":
